@@ -140,11 +140,10 @@ NoPolicyNoFlags == (Done /\ P.pol = PNone) => \A p \in P7 : ~res[p].x
 \* where it culminates between -0.83 and 0 degrees, and that hid the findings F2 / F3 = D9 at design level; the
 \* trace check found them.  The assumption is gone: LegacyLateInt = TRUE now violates InvalidKeepsValid and
 \* IdentityWhenAllValid in TLC.)
-\* What remains is a fact about substitute latitudes within [-60, 60] (the range C08 is checked over): there the Sun
-\* crosses 0 degrees whenever it sets, so the placeholder Isha of the substitute latitude exists exactly when its
-\* Maghrib does.
-IshaTied(tabs) == \A var \in {"base", "im"} : tabs[var][Isha].ok = tabs[var][Maghrib].ok
-NamedMethodShape == P.fi = 0 /\ (P.ii # 0 => IshaTied(env.nl))
+\* A second assumption of the same kind - "at the substitute latitude the placeholder Isha exists exactly when Maghrib
+\* does", true within [-60, 60] only - hid D10 (an Isha derived from a replaced Maghrib reported unflagged); it is gone
+\* too: LegacyIntFlag = TRUE violates UnflaggedIsConventional.
+NamedMethodShape == P.fi = 0
 QuantifiedC08 == NamedMethodShape /\ (P.pol \in IntervalConsumers => P.fi = 0 /\ P.ii = 0)
 \* C08 (a): a policy restricted to Fajr and Isha never changes Shurooq, Dhuhr, Asr, Maghrib
 FajrIshaOnly == (Done /\ P.pol \in FajrIshaOnlyPolicies /\ QuantifiedC08) =>
